@@ -31,10 +31,33 @@ def diag_classes():
           M('compiler.functors').FunctorError, M('type_inference.research.infer').TypeErrorCaughtException)
 
 
+class CompileBudgetExceeded(BaseException):
+  """One call into the implementation used more CPU time than the budget (the call does not terminate, or is exponentially slow)."""
+
+
+# CPU seconds (user time of this process, so machine load does not matter) one call into the implementation may use. The slowest
+# legitimate calls (iterative flat recursion plans) need about 70 s; ordinary compiles well under 1 s. After the first overrun in a
+# process - the run already ends with a violation - the budget drops, so that a change that makes many inputs hang is still reported
+# in bounded time instead of hanging the check.
+BUDGET = [float(os.environ.get('VERIF_CALL_BUDGET_S', '400'))]
+_armed = [False]
+
+
 def quiet(f, *a, **k):
-  """Call f with stdout/stderr captured (diagnostics print coloured text)."""
-  with contextlib.redirect_stderr(io.StringIO()), contextlib.redirect_stdout(io.StringIO()):
-    return f(*a, **k)
+  """Call f with stdout/stderr captured (diagnostics print coloured text), under the CPU-time budget."""
+  import signal, threading
+  arm = not _armed[0] and threading.current_thread() is threading.main_thread()
+  if arm:
+    def on_timer(signum, frame):
+      b = BUDGET[0]; BUDGET[0] = min(BUDGET[0], 3.0)
+      raise CompileBudgetExceeded('the call used more than %d s of CPU time' % b)
+    old = signal.signal(signal.SIGVTALRM, on_timer); signal.setitimer(signal.ITIMER_VIRTUAL, BUDGET[0]); _armed[0] = True
+  try:
+    with contextlib.redirect_stderr(io.StringIO()), contextlib.redirect_stdout(io.StringIO()):
+      return f(*a, **k)
+  finally:
+    if arm:
+      signal.setitimer(signal.ITIMER_VIRTUAL, 0); signal.signal(signal.SIGVTALRM, old); _armed[0] = False
 
 
 def parse(text, import_root=None, file_name='main'):
